@@ -742,15 +742,16 @@ class MacroProgram(ElementProgram):
             if isinstance(name, Token):
                 # keep the position of the instruction in the source
                 text = Token(text, name.pos - 2, name.source, name.filename)
-            return self.visit_text(text)
+            # (an instruction is not text to be translated implicitly)
+            return self.visit_text(text, translate=False)
 
         return nodes.CodeBlock(node['text'])
 
-    def visit_text(self, node):
+    def visit_text(self, node, translate=True):
         self._last = node
 
         # Text of an element marked i18n:translate is translated with it
-        translation = self.implicit_i18n_translate and \
+        translation = translate and self.implicit_i18n_translate and \
             not self._translated[-1]
 
         if self._interpolation[-1] and '${' in node:
